@@ -49,6 +49,7 @@ func (p *Program) Normalise(b *Baseline) {
 				}
 			}
 			n.canonLen(fd)
+			n.canonMapLookup(fd)
 			tags := b.Tags[q]
 			if !b.HasFunc(q) {
 				tags = nil
@@ -405,6 +406,15 @@ func (n *normaliser) stable(fd *ast.FuncDecl, def localDef, uses []*ast.Ident) b
 		}
 		return false
 	}
+	readsField := false
+	ast.Inspect(def.rhs, func(node ast.Node) bool {
+		if sel, isSel := node.(*ast.SelectorExpr); isSel {
+			if v, isV := n.info.Uses[sel.Sel].(*types.Var); isV && v.IsField() {
+				readsField = true
+			}
+		}
+		return true
+	})
 	lo, hi := def.stmt.End(), def.stmt.End()
 	for _, u := range uses {
 		if u.End() > hi {
@@ -470,9 +480,28 @@ func (n *normaliser) stable(fd *ast.FuncDecl, def localDef, uses []*ast.Ident) b
 					ok = false
 				}
 			}
+		case *ast.SendStmt:
+			if x.Pos() >= lo && x.Pos() <= hi && readsField {
+				ok = false // a synchronisation point: a field read must stay on its side of it
+			}
+		case *ast.GoStmt:
+			if x.Pos() >= lo && x.Pos() <= hi && readsField {
+				ok = false
+			}
 		case *ast.CallExpr:
 			if x.Pos() < lo || x.Pos() > hi {
 				return true
+			}
+			// lock/unlock, once, wait groups, channel close: a read of shared state (a field) is not moved across
+			if readsField {
+				if f, isF := astx.Callee(n.info, x).(*types.Func); isF && f.Pkg() != nil && (f.Pkg().Path() == "sync" || f.Pkg().Path() == "sync/atomic") {
+					ok = false
+				}
+				if id, isID := x.Fun.(*ast.Ident); isID {
+					if b, isB := n.info.Uses[id].(*types.Builtin); isB && b.Name() == "close" {
+						ok = false
+					}
+				}
 			}
 			if sel, isSel := x.Fun.(*ast.SelectorExpr); isSel && mutatingMethod[sel.Sel.Name] && roots[rootOf(sel.X)] && conflicts(sel.X) {
 				ok = false
